@@ -264,6 +264,8 @@ def status_of(e):
         return "EOFError"
     if isinstance(e, ValueError):
         return "ValueError"
+    if isinstance(e, Warning):
+        return "Warning!" + type(e).__name__
     return type(e).__name__
 
 
